@@ -40,6 +40,13 @@ def class_obligations(run, lexmod):
     e3(run, 'class.line_terminator_chars', ltset == sets['LineTerminator'],
        't_LINE_TERMINATOR single characters = {%s}' % cc.show(ltset), witness=cc.show(cc.union(cc.minus(ltset, sets['LineTerminator']), cc.minus(sets['LineTerminator'], ltset))),
        required='LF, CR, LS, PS')
+    ident = re.compile(Lexer.identifier)
+    part = cc.from_pred(lambda cp: ident.fullmatch('a' + chr(cp)) is not None)
+    sep = cc.union(ws_bom, sets['LineTerminator'])
+    x = cc.intersect(part, sep)
+    e3(run, 'class.identifier_disjoint_separators', not x and cc.z3_subset(x, []),
+       'identifier characters of the lexer that are ES5 white space / line terminators = {%s}' % cc.show(x), witness=x[:1] and chr(x[0][0]),
+       required='a separator is never absorbed into an identifier (else the text between two tokens is not all there is of white space)')
     pre = cc.from_chars(' \t')
     e3(run, 'class.prescan_subset_ignore', not cc.minus(pre, ign), "the ' \\t' pre-scan of Lexer._token is within t_ignore")
     rign = cc.from_chars(Lexer.t_regex_ignore)
@@ -233,6 +240,8 @@ def punctuator_behaviour(run, lexmod, texts):
 
 
 def main(run, tier):
+    from . import parsefwd
+    parsefwd.add(run, tier)
     lexmod = importlib.import_module('calmjs.parse.lexers.es5')
     run.explanation = ('lexer arithmetic and keyword classification by VCs from the real AST (E1); white space / line terminator / '
                        'comment classes and rule order by exhaustive code-point interval algebra and exhaustive short strings '
@@ -253,6 +262,8 @@ def main(run, tier):
     seps = [' ', '\n', '\r\n', ' ', ' /*c*/ ', ' /*a b\r\nc*/ ', ' \t', '  // x\r', '\xa0﻿', '\r']
     progs = [gen.render(t, sep) for _, t in corpus for sep in (seps if tier == 'thorough' else seps[:7])]
     progs += [p.replace(' ', s) for p in gen.EXTRA_PROGRAMS for s in seps]
+    progs += [lead + p for p in gen.EXTRA_PROGRAMS[:6] + ['a', 'var x = 1;\nx++;'] for lead in ('\ufeff', '\ufeff\ufeff', '\u1680', '\ufeff\n')]
+    progs += ['var\u1680x', 'a\u1680b', 'a\u2000b\u3000c', 'x\u180ey', 'a\ufeffb;']
     rnd = random.Random(run.seed)
     soup = ['a', 'if', 'in', 'instanceof', 'x1', '1', '.5', '"s\\\n t"', "'q'", '/r/g', '+', '++', '+=', '>>>=', '>>', '===', '!',
             '(', ')', '{', '}', '[', ']', ';', ',', '.', '\n', '\r\n', ' ', ' ', '\t', '/*c\n*/', '//l\n', 'é', 'do', 'get', 'set',
